@@ -34,7 +34,7 @@ def gen_long_tree(rng, nfiles, ndirs):
     for d in range(ndirs):
         nm = (b"d%02d_" % d) + b"x" * rng.choice([5, 60, 180])
         sub = {}
-        ch[nm] = ("d", sub)
+        rng.choice(dirs + [ch, ch])[nm] = ("d", sub)        # nested now and then: leaving several directories at once
         dirs.append(sub)
     for i in range(nfiles):
         nm = (b"f%05d_" % i) + b"y" * rng.choice([3, 100, 200, 230])
@@ -49,39 +49,24 @@ def run(ctx):
     rng = ctx.rng
     forest = wc.Forest("c08-")
     try:
-        ncase = 80 if ctx.thorough else 14
+        ncase = 100 if ctx.thorough else 20
         bad = []
         for k in range(ncase):
             nm = b"m%d" % k
-            big = rng.random() < 0.6
-            spec = gen_long_tree(rng, rng.choice([600, 1200, 2500]) if big else rng.choice([0, 1, 5, 30]), rng.choice([0, 1, 3, 6]))
+            big = rng.random() < 0.5
+            spec = gen_long_tree(rng, rng.choice([600, 1200, 2500]) if big else rng.choice([0, 1, 5, 12, 30]), rng.choice([0, 1, 3, 6]))
             forest.add(nm, spec)
             execdir = rng.random() < 0.5
             rl = rng.choice([256 * 1024, 256 * 1024, 1 << 20]) if big else 8 << 20
             fixed = [b"record"] + [rng.choice([b"-a", b"fixed arg", b"x" * 50]) for _ in range(rng.randint(0, 2))]
             test = rng.choice([[], [], ["-type", "f"], ["-name", "f*"]])
             quit_at = rng.random() < 0.25
-            failing = sorted(rng.sample(range(6), rng.choice([0, 0, 1, 2])))
+            nfail = rng.choice([0, 1, 1, 2])
             root = nc.spelled(rng, forest.dir, nm, rng.choice(["{r}", "./{r}", "{r}/"]))
             rec = os.path.join(forest.dir, b"rec%d" % k)
-            env = dict(xc.ENV, FUV_RECORD=rec.decode(), FUV_EXIT_MAP=",".join("%d:3" % i for i in failing))
-            flag = "-execdir" if execdir else "-exec"
-            args = [fw.FIND, root.decode(), "-sorted"] + test + [flag, fw.FUV] + [f.decode() for f in fixed] + ["{}", "+"]
-            if quit_at:
-                args += ["-name", "Q", "-quit"]
-
-            def pre(rl=rl):
-                resource.setrlimit(resource.RLIMIT_STACK, (rl, rl))
-            p = subprocess.run(args, stdout=subprocess.DEVNULL, stderr=subprocess.DEVNULL, cwd=forest.dir, env=env, preexec_fn=pre, timeout=600)
-            got = []
-            if os.path.exists(rec):
-                for line in open(rec):
-                    parts = line.split()
-                    got.append((os.path.normpath(fw.unhex(parts[0])), [fw.unhex(x) for x in parts[1:]][len(fixed) - 1:]))
-                os.remove(rec)
             # the model's view
             visits = [(names, nc.join_ref(root, list(names))) for names in nc.listing(spec)]
-            if quit_at:
+            if quit_at and test != ["-name", "f*"]:      # behind -name f* the -quit is never reached (Q does not match)
                 cut = next((i for i, (names, p_) in enumerate(visits) if names and names[-1] == b"Q"), None)
                 if cut is not None:
                     visits = visits[:cut + 1]
@@ -109,9 +94,33 @@ def run(ctx):
                     h = path
                 handed[i + 1] = (h, par)
                 entries.append("%d:%d:%d:%d:%d" % (i + 1, 8 + len(h) + 1, int(len(h) <= 131071), pid, int(reached)))
+            # which invocations fail: numbers below the number of invocations the model predicts, so that every kind of
+            # dispatch (overflow inside matches, leaving a directory mid-walk, the final flush) meets a failing command
             amax = arg_max(rl)
-            envs = ",".join("%d:%d" % (len(k_.encode()), len(v_.encode())) for k_, v_ in env.items())
-            budget = int(fw.run_lines(fw.FUVM, ["limits argmax_budget %d %s %d %s" % (amax, envs, len(fw.FUV), ",".join(str(len(f)) for f in fixed))], shards=1)[0])
+
+            def budget_for(failing):
+                env_ = dict(xc.ENV, FUV_RECORD=rec.decode(), FUV_EXIT_MAP=",".join("%d:3" % i for i in failing))
+                envs_ = ",".join("%d:%d" % (len(k_.encode()), len(v_.encode())) for k_, v_ in env_.items())
+                return env_, int(fw.run_lines(fw.FUVM, ["limits argmax_budget %d %s %d %s" % (amax, envs_, len(fw.FUV), ",".join(str(len(f)) for f in fixed))], shards=1)[0])
+            env, budget = budget_for(list(range(nfail)))
+            m0 = fw.run_lines(fw.FUVM, ["execm %d %d ~ %s" % (int(execdir), budget, ",".join(entries) if entries else "~")], shards=1)[0].split(" ")
+            nruns = min(len(m0) - 2, 10)
+            failing = sorted(rng.sample(range(nruns), min(nfail, nruns))) if rng.random() < 0.8 else sorted(rng.sample(range(6), nfail))
+            env, budget = budget_for(failing)
+            flag = "-execdir" if execdir else "-exec"
+            args = [fw.FIND, root.decode(), "-sorted"] + test + [flag, fw.FUV] + [f.decode() for f in fixed] + ["{}", "+"]
+            if quit_at:
+                args += ["-name", "Q", "-quit"]
+
+            def pre(rl=rl):
+                resource.setrlimit(resource.RLIMIT_STACK, (rl, rl))
+            p = subprocess.run(args, stdout=subprocess.DEVNULL, stderr=subprocess.DEVNULL, cwd=forest.dir, env=env, preexec_fn=pre, timeout=600)
+            got = []
+            if os.path.exists(rec):
+                for line in open(rec):
+                    parts = line.split()
+                    got.append((os.path.normpath(fw.unhex(parts[0])), [fw.unhex(x) for x in parts[1:]][len(fixed) - 1:]))
+                os.remove(rec)
             m = fw.run_lines(fw.FUVM, ["execm %d %d %s %s" % (int(execdir), budget, ",".join(map(str, failing)) if failing else "~",
                                                              ",".join(entries) if entries else "~")], shards=1)[0].split(" ")
             mfailed, mpending, mruns = m[0] == "1", m[1] == "1", m[2:]
